@@ -1,4 +1,4 @@
-From SplVerif Require Import Lib.Base Token.Model Token.Proofs Props.C17.
+From SplVerif Require Import Lib.Base Token.Model Token.Proofs Token.Sets Props.C17.
 Local Open Scope N_scope.
 (* PINS *)
 Check C17_account_spec : forall p b, generic_account p b = Ok (if acct_ok p b then Some (seg b 0 32, seg b 32 32, le_dec (seg b 64 8)) else None).
@@ -8,3 +8,8 @@ Check C17_no_confusion : forall p b r, generic_account p b = Ok (Some r) -> gene
 Check C17_unknown_id : forall b, generic_account POther b = Ok None /\ generic_mint POther b = Ok None.
 Check C17_token_exact_lengths : forall b, (acct_ok PToken b = true -> len b = 165) /\ (mint_ok PToken b = true -> len b = 82).
 Check C17_token2022_extended : forall b, 165 < len b -> (acct_ok PToken2022 b = true <-> (len b <> 355 /\ marker b = x02 /\ is_initialized_at b 108 = true)) /\ (mint_ok PToken2022 b = true <-> (len b <> 355 /\ marker b = x01 /\ is_initialized_at b 45 = true)).
+Check C17_token_iff : forall b, (acct_ok PToken b = true <-> len b = 165 /\ is_initialized_at b 108 = true) /\ (mint_ok PToken b = true <-> len b = 82 /\ is_initialized_at b 45 = true).
+Check C17_token2022_at_most_base_length : forall b, len b <= 165 -> acct_ok PToken2022 b = acct_ok PToken b /\ mint_ok PToken2022 b = mint_ok PToken b.
+Check C17_token_subset_of_token2022 : forall b, (forall r, generic_account PToken b = Ok (Some r) -> generic_account PToken2022 b = Ok (Some r)) /\ (forall r, generic_mint PToken b = Ok (Some r) -> generic_mint PToken2022 b = Ok (Some r)).
+Check C17_multisig_length_never_parses : forall p b, len b = 355 -> generic_account p b = Ok None /\ generic_mint p b = Ok None.
+Check C17_other_short_lengths_never_parse : forall p b, len b <> 82 -> len b <> 165 -> len b <= 165 -> generic_account p b = Ok None /\ generic_mint p b = Ok None.
